@@ -721,6 +721,7 @@ pub fn scenarios(tier: Tier) -> Vec<Scenario> {
                 second: None,
             });
             // two first hits of different callsites race with each other; the reload comes last by default
+            if tier == Tier::Thorough || kind != Kind::FilteredInside {
             v.push(Scenario {
                 f17_open: false,
                 name: format!("{:?} {}->{} first-hit event || first-hit event || reload (last)", kind, old.short(), new.short()),
@@ -732,7 +733,9 @@ pub fn scenarios(tier: Tier) -> Vec<Scenario> {
                 reload_last: true,
                 second: None,
             });
+            }
             // two overlapping reloads (old -> new || old -> back to old's opposite) and an emitter
+            if tier == Tier::Thorough || kind != Kind::Global {
             v.push(Scenario {
                 f17_open: false,
                 name: format!("{:?} {}->{} || ->{} two reloads || cached event", kind, old.short(), new.short(), old.short()),
@@ -744,6 +747,7 @@ pub fn scenarios(tier: Tier) -> Vec<Scenario> {
                 reload_last: false,
                 second: Some(old.clone()),
             });
+            }
             if tier == Tier::Thorough || kind != Kind::Global {
                 v.push(Scenario {
                     f17_open: false,
